@@ -74,23 +74,33 @@ type H struct {
 }
 
 func (h *H) runCLI(dir string, args []string, stdin string) runRes {
-	ctx, cancel := context.WithTimeout(context.Background(), 20*time.Second)
-	defer cancel()
-	cmd := exec.CommandContext(ctx, h.goawk, args...)
-	cmd.Dir = dir
-	cmd.Stdin = strings.NewReader(stdin)
-	var out, errb bytes.Buffer
-	cmd.Stdout, cmd.Stderr = &out, &errb
-	err := cmd.Run()
-	st := 0
-	if err != nil {
-		if ee, ok := err.(*exec.ExitError); ok {
-			st = ee.ExitCode()
-		} else {
-			st = -999
+	// the generated programs terminate at once; a run that hits the timeout (overloaded machine)
+	// is repeated with a longer one and, if it still does not finish, reported as status -999,
+	// which checkCase turns into a harness error, never into a finding
+	for _, limit := range []time.Duration{30 * time.Second, 120 * time.Second} {
+		ctx, cancel := context.WithTimeout(context.Background(), limit)
+		cmd := exec.CommandContext(ctx, h.goawk, args...)
+		cmd.Dir = dir
+		cmd.Stdin = strings.NewReader(stdin)
+		var out, errb bytes.Buffer
+		cmd.Stdout, cmd.Stderr = &out, &errb
+		err := cmd.Run()
+		timedOut := ctx.Err() != nil
+		cancel()
+		if timedOut {
+			continue
 		}
+		st := 0
+		if err != nil {
+			if ee, ok := err.(*exec.ExitError); ok {
+				st = ee.ExitCode()
+			} else {
+				st = -999
+			}
+		}
+		return runRes{out.String(), errb.String(), st}
 	}
-	return runRes{out.String(), errb.String(), st}
+	return runRes{"", "timeout", -999}
 }
 
 var lineRe = regexp.MustCompile(`^(.*):(\d+)\.(\d+),(\d+)\.(\d+) (\d+) (\d+)$`)
@@ -265,6 +275,10 @@ func (h *H) checkCase(n int, c *Case) (res caseResult) {
 	// ---- plain run ----
 	plainArgs := append(append([]string{}, progArgs...), inArgs...)
 	plain := h.runCLI(dir, plainArgs, c.Input)
+	if plain.Status == -999 || plain.Status == -1 {
+		res.herr = "the plain command could not be run or was killed: " + plain.Stderr + "\n" + progText
+		return
+	}
 
 	// ---- reference run: a marker in front of every statement ----
 	began := map[Pos]int{}
@@ -375,6 +389,10 @@ func (h *H) checkCase(n int, c *Case) (res caseResult) {
 		existed := v.profile != "" && oldErr == nil
 		args := append(append(append([]string{}, v.flags...), progArgs...), inArgs...)
 		got := h.runCLI(dir, args, c.Input)
+		if got.Status == -999 || got.Status == -1 {
+			res.herr = "the command could not be run or was killed: " + got.Stderr + "\n" + progText
+			return
+		}
 		res.searches++
 		res.hist = append(res.hist, "run:"+v.name)
 
